@@ -716,6 +716,16 @@ def schema_cases(run, names, rng, tier):
             exs = run.lib.examples.get(key, [])
             idx = list(range(len(exs)))
             rng.shuffle(idx)
+            # one example per presence mask, the most populated masks first (order-sensitive pairs of optional
+            # fields only show when both are present), then the rest
+            firsts, seen_masks = [], set()
+            for i in idx:
+                mk = presence_mask(exs[i][0])
+                if mk not in seen_masks:
+                    seen_masks.add(mk)
+                    firsts.append(i)
+            firsts.sort(key=lambda i: -presence_mask(exs[i][0]).count("1"))
+            idx = firsts + [i for i in idx if i not in set(firsts)]
             pool_children = []
             picked = 0
             seen = set()
